@@ -1,0 +1,196 @@
+//! Verification hooks (only compiled with `--cfg octo_verif`).
+//!
+//! * `CLOCK_OFFSET` shifts the wall clock seen by `aead_2022::now()` and `vmess::now()`.
+//! * `emit` appends one NDJSON event to the file named by `OCTO_VERIF_TRACE` (or to an in-memory
+//!   sink installed by a harness); the per-process sequence number is taken under the sink mutex.
+//! * `sync_point` parks the calling thread at a named point until a controller releases it.
+
+use std::collections::HashMap;
+use std::fs::File;
+use std::fs::OpenOptions;
+use std::io::Write;
+use std::sync::Condvar;
+use std::sync::Mutex;
+use std::sync::OnceLock;
+use std::sync::atomic::AtomicBool;
+use std::sync::atomic::AtomicI64;
+use std::sync::atomic::Ordering;
+
+/// Seconds added to the real clock (0 = real time).
+pub static CLOCK_OFFSET: AtomicI64 = AtomicI64::new(0);
+
+pub fn clock_offset() -> i64 {
+    CLOCK_OFFSET.load(Ordering::SeqCst)
+}
+
+pub fn set_clock_offset(offset: i64) {
+    CLOCK_OFFSET.store(offset, Ordering::SeqCst)
+}
+
+enum Sink {
+    File(File),
+    Memory(Vec<String>),
+}
+
+struct Tracer {
+    seq: u64,
+    sink: Sink,
+}
+
+static ENABLED: AtomicBool = AtomicBool::new(false);
+static INIT: OnceLock<()> = OnceLock::new();
+static TRACER: Mutex<Option<Tracer>> = Mutex::new(None);
+
+fn init_from_env() {
+    INIT.get_or_init(|| {
+        if let Ok(path) = std::env::var("OCTO_VERIF_TRACE") {
+            if let Ok(file) = OpenOptions::new().create(true).append(true).open(path) {
+                *TRACER.lock().unwrap_or_else(|e| e.into_inner()) = Some(Tracer { seq: 0, sink: Sink::File(file) });
+                ENABLED.store(true, Ordering::SeqCst);
+            }
+        }
+    });
+}
+
+/// Install an in-memory sink (harness use); returns previously collected lines, if any.
+pub fn install_memory_sink() {
+    INIT.get_or_init(|| ());
+    *TRACER.lock().unwrap_or_else(|e| e.into_inner()) = Some(Tracer { seq: 0, sink: Sink::Memory(Vec::new()) });
+    ENABLED.store(true, Ordering::SeqCst);
+}
+
+/// Take the lines collected by the in-memory sink.
+pub fn drain_memory_sink() -> Vec<String> {
+    let mut guard = TRACER.lock().unwrap_or_else(|e| e.into_inner());
+    match guard.as_mut() {
+        Some(Tracer { sink: Sink::Memory(lines), .. }) => std::mem::take(lines),
+        _ => Vec::new(),
+    }
+}
+
+pub fn enabled() -> bool {
+    init_from_env();
+    ENABLED.load(Ordering::Relaxed)
+}
+
+/// Emit one event; `fields` is the inside of a JSON object without braces, e.g. `"salt":"ab","found":true`.
+pub fn emit(event: &str, fields: &str) {
+    if !enabled() {
+        return;
+    }
+    let mut guard = TRACER.lock().unwrap_or_else(|e| e.into_inner());
+    if let Some(tracer) = guard.as_mut() {
+        tracer.seq += 1;
+        let tid = thread_tag();
+        let sep = if fields.is_empty() { "" } else { "," };
+        let line = format!("{{\"p\":{},\"seq\":{},\"th\":{},\"ev\":\"{}\"{}{}}}", std::process::id(), tracer.seq, tid, event, sep, fields);
+        match &mut tracer.sink {
+            Sink::File(file) => {
+                let _ = writeln!(file, "{}", line);
+            }
+            Sink::Memory(lines) => lines.push(line),
+        }
+    }
+}
+
+pub fn hex(bytes: &[u8]) -> String {
+    bytes.iter().map(|b| format!("{:02x}", b)).collect()
+}
+
+thread_local! {
+    static THREAD_TAG: std::cell::Cell<u64> = const { std::cell::Cell::new(0) };
+}
+
+/// A harness may label the current thread so that events and sync points carry a stable small id.
+pub fn set_thread_tag(tag: u64) {
+    THREAD_TAG.with(|t| t.set(tag));
+}
+
+pub fn thread_tag() -> u64 {
+    THREAD_TAG.with(|t| t.get())
+}
+
+#[derive(Default)]
+struct Controller {
+    /// thread tag -> point the thread is parked at
+    parked: HashMap<u64, String>,
+    /// thread tag -> number of points it may pass
+    permits: HashMap<u64, u64>,
+}
+
+static CONTROLLED: AtomicBool = AtomicBool::new(false);
+static CONTROLLER: Mutex<Option<Controller>> = Mutex::new(None);
+static CONTROLLER_CV: Condvar = Condvar::new();
+
+pub fn install_controller() {
+    *CONTROLLER.lock().unwrap_or_else(|e| e.into_inner()) = Some(Controller::default());
+    CONTROLLED.store(true, Ordering::SeqCst);
+}
+
+pub fn remove_controller() {
+    CONTROLLED.store(false, Ordering::SeqCst);
+    *CONTROLLER.lock().unwrap_or_else(|e| e.into_inner()) = None;
+    CONTROLLER_CV.notify_all();
+}
+
+/// Called by code under test: park until the controller lets this thread pass `name`.
+pub fn sync_point(name: &str) {
+    if !CONTROLLED.load(Ordering::Relaxed) {
+        return;
+    }
+    let tag = thread_tag();
+    if tag == 0 {
+        return;
+    }
+    let mut guard = CONTROLLER.lock().unwrap_or_else(|e| e.into_inner());
+    if let Some(c) = guard.as_mut() {
+        c.parked.insert(tag, name.to_owned());
+    }
+    CONTROLLER_CV.notify_all();
+    loop {
+        match guard.as_mut() {
+            None => return,
+            Some(c) => {
+                let permit = c.permits.entry(tag).or_insert(0);
+                if *permit > 0 {
+                    *permit -= 1;
+                    c.parked.remove(&tag);
+                    CONTROLLER_CV.notify_all();
+                    return;
+                }
+            }
+        }
+        guard = CONTROLLER_CV.wait(guard).unwrap_or_else(|e| e.into_inner());
+    }
+}
+
+/// Controller side: wait until thread `tag` is parked (at any point) and return the point's name.
+pub fn wait_parked(tag: u64, timeout_ms: u64) -> Option<String> {
+    let deadline = std::time::Instant::now() + std::time::Duration::from_millis(timeout_ms);
+    let mut guard = CONTROLLER.lock().unwrap_or_else(|e| e.into_inner());
+    loop {
+        if let Some(c) = guard.as_ref() {
+            if let Some(p) = c.parked.get(&tag) {
+                return Some(p.clone());
+            }
+        } else {
+            return None;
+        }
+        let now = std::time::Instant::now();
+        if now >= deadline {
+            return None;
+        }
+        let (g, _) = CONTROLLER_CV.wait_timeout(guard, deadline - now).unwrap_or_else(|e| e.into_inner());
+        guard = g;
+    }
+}
+
+/// Controller side: let thread `tag` pass the point it is (or will next be) parked at.
+pub fn release(tag: u64) {
+    let mut guard = CONTROLLER.lock().unwrap_or_else(|e| e.into_inner());
+    if let Some(c) = guard.as_mut() {
+        *c.permits.entry(tag).or_insert(0) += 1;
+        c.parked.remove(&tag);
+    }
+    CONTROLLER_CV.notify_all();
+}
